@@ -468,6 +468,8 @@ func (in *Interp) mergeValue(c *Term, a, b Value) (Value, bool) {
 		return nil, false
 	case OpaqueV:
 		return a, true
+	case JSONV:
+		return nil, false
 	case ClosureV:
 		return nil, false
 	case int: // iterator positions
